@@ -290,7 +290,15 @@ func c9sess(a []string) string {
 			oc = strings.Split(it[:k], ":")[3]
 			second = it[k+1:]
 		}
-		r := w.session(f[0], f[1], int(u64(f[2])), oc, second)
+		// process count, optionally followed by f<mask>: Close() of this session's stream to relayer 1 (bit 0) / 2 (bit 1) fails
+		np, mask := f[2], "0"
+		if k := strings.Index(np, "f"); k >= 0 {
+			np, mask = np[:k], np[k+1:]
+		}
+		m := int(u64(mask))
+		w.self.setFailClose(map[peer.ID]bool{w.ids[1]: m&1 == 1, w.ids[2]: m&2 == 2})
+		r := w.session(f[0], f[1], int(u64(np)), oc, second)
+		w.self.setFailClose(nil)
 		if r == "hang" {
 			return "hang"
 		}
@@ -536,7 +544,7 @@ func (w *c9world) session(name, role string, np int, oc, second string) string {
 	}
 	return strings.Join([]string{r, itoa(s1 - s0), itoa(u1 - u0), itoa(c1 - c0),
 		itoa(w.ledger.inner.VerifLiveSubscriptions(sid)), itoa(w.ledger.inner.VerifStreamCount(sid)), itoa(w.self.openOut()),
-		strings.Join(runs, "+"), strings.Join(stops, "+"), pend,
+		itoa(w.self.misuse()), strings.Join(runs, "+"), strings.Join(stops, "+"), pend,
 		itoa(ecomm.VerifLiveSubscriptions(sid)), itoa(ecomm.VerifStreamCount(sid))}, "/")
 }
 
@@ -694,6 +702,13 @@ func genC09(g *G) {
 			g.Emit("sess", "a:c:"+np+":"+oc+",a:c:1:ok")
 		}
 	}
+	// Close() of a session's stream fails at session end (every pattern), then the id is used again - twice
+	for _, oc := range []string{"ok", "fail", "cancelrun", "gto"} {
+		for _, m := range []string{"1", "2", "3"} {
+			g.Emit("sess", "a:c:1f"+m+":"+oc+",a:c:1:ok,a:c:2f"+m+":ok,a:p:1:ok")
+		}
+		g.Emit("sess", "a:p:1f1:"+map[string]string{"ok": "ok", "fail": "fail", "cancelrun": "cancelrun", "gto": "failmsg"}[oc]+",a:p:1:ok,a:c:1:ok")
+	}
 	g.Emit("sess", "a:p:1:gtorun,a:c:2:ok")
 	if g.Thorough() {
 		g.Emit("sess", "a:c:2:gtorun,a:p:1:ok")
@@ -734,7 +749,11 @@ func genC09(g *G) {
 					role, oc = "C", g.Pick(c9retryC)
 				}
 			}
-			xs = append(xs, []string{"a", "b"}[g.Intn(2)]+":"+role+":"+itoa(1+g.Intn(3))+":"+oc)
+			np := itoa(1 + g.Intn(3))
+			if g.Intn(3) == 0 {
+				np += "f" + itoa(1+g.Intn(3))
+			}
+			xs = append(xs, []string{"a", "b"}[g.Intn(2)]+":"+role+":"+np+":"+oc)
 		}
 		g.Emit("sess", strings.Join(xs, ","))
 	}
